@@ -326,6 +326,21 @@ pub fn oracle_line(line: &str, ann: &str) -> V {
         ["table", tn, le, cls, _ops, hexd] => oracle_table(tn, *le == "1", class_of(cls), &unhex(hexd)),
         ["strtab", off, hexd] => oracle_strtab(nat(off), &unhex(hexd)),
         ["utf8", _] => Ok(()), // the implementation side *is* core::str::from_utf8
+        ["acc", "versym", v] => {
+            // ABI: VERSYM_VERSION 0x7fff, VERSYM_HIDDEN 0x8000, VER_NDX_LOCAL 0, VER_NDX_GLOBAL 1
+            let v = nat(v) as u16;
+            let idx = v % 0x8000;
+            let want = format!("{},{},{},{}", idx, show_bool(idx == 0), show_bool(idx == 1), show_bool(v >= 0x8000));
+            let got = run_line(line);
+            if got == want { Ok(()) } else { Err(format!("got `{}` expected `{}`", got, want)) }
+        }
+        ["acc", "sym", info, other, shndx] => {
+            // ELF_ST_BIND(i) = i>>4, ELF_ST_TYPE(i) = i&0xf, ELF_ST_VISIBILITY(o) = o&3, undefined iff shndx == SHN_UNDEF
+            let (i, o, x) = (nat(info), nat(other), nat(shndx));
+            let want = format!("{},{},{},{}", show_bool(x == 0), i % 16, i / 16, o % 4);
+            let got = run_line(line);
+            if got == want { Ok(()) } else { Err(format!("got `{}` expected `{}`", got, want)) }
+        }
         ["ident", sp, hexd] => oracle_ident(line, sp, &unhex(hexd)),
         ["eidata", sp, v] => oracle_eidata(line, sp, nat(v) as u8),
         ["hashfn", kind, hexd] => oracle_hashfn(kind, &unhex(hexd)),
